@@ -45,32 +45,57 @@ Pow2(k) == IF k = 0 THEN N(1) ELSE N(2) ** Pow2(k - 1)
 RoundFee(slash, r) == NMin(slash, (slash // N(20)) ** Pow2(r))
 
 \* ---------------- C12: tally ----------------
-\* counts: [users, reporters, holders, team] each <<support, against, invalid>> ; totals: [users, reporters, holders]
-\* everything scaled by 10^6 (one group = 10^6 "points"; participation in units of 10^-6 percent)
+\* counts cn: [users, reporters, holders, team] each <<support, against, invalid>>
+\* totals tot: [users, reporters, supply] as of the dispute's block (supply: now)
+\* Each participating group contributes its support/against/invalid fractions equally (one group = 10^6 points,
+\* computed with 18 further decimals and truncated once at the end, as fixed-point arithmetic does).
+E18 == Pow10(18)
 Sum3(g) == g[1] ++ g[2] ++ g[3]
-\* a group's contribution to choice c (1 support, 2 against, 3 invalid): cast_c / cast  (0 if nobody in the group voted)
-Frac(g, c) == IF IsZero(Sum3(g)) THEN Zero ELSE (g[c] ** E6) // Sum3(g)
-\* participation of a group: 25% * cast / total, in units of 10^-6 percent
+Frac18(g, c) == IF IsZero(Sum3(g)) THEN Zero ELSE ((g[c] ** E6) ** E18) // Sum3(g)
+\* participation of a group: 25% * cast / total, in units of 10^-6 percent (0 when the group's total is 0)
 Part(total, cast) == IF IsZero(total) THEN Zero ELSE ((cast ** E6) ** N(100)) // (total ** N(4))
 TeamVoted(cn) == ~IsZero(Sum3(cn.team))
 Quorum == N(51) ** E6
 \* first stage: team, users, reporters
-Stage1Part(cn, tot) == (IF TeamVoted(cn) THEN N(25) ** E6 ELSE Zero) ++ (IF IsZero(Sum3(cn.users)) THEN Zero ELSE Part(tot.users, Sum3(cn.users))) ++ Part(tot.reporters, Sum3(cn.reporters))
-Stage1Sum(cn, c) == (IF TeamVoted(cn) /\ ~IsZero(cn.team[c]) THEN E6 ELSE Zero) ++ Frac(cn.users, c) ++ Frac(cn.reporters, c)
+Stage1Part(cn, tot) == (IF TeamVoted(cn) THEN N(25) ** E6 ELSE Zero)
+                       ++ (IF IsZero(Sum3(cn.users)) THEN Zero ELSE Part(tot.users, Sum3(cn.users)))
+                       ++ Part(tot.reporters, Sum3(cn.reporters))
+Stage1Sum18(cn, c) == (IF TeamVoted(cn) /\ ~IsZero(cn.team[c]) THEN E6 ** E18 ELSE Zero) ++ Frac18(cn.users, c) ++ Frac18(cn.reporters, c)
 \* second stage adds the token holders
 Stage2Part(cn, tot) == Stage1Part(cn, tot) ++ Part(tot.supply, Sum3(cn.holders))
-Stage2Sum(cn, c) == Stage1Sum(cn, c) ++ Frac(cn.holders, c)
-\* the decided choice given three sums: strict maximum, invalid when there is none (ties)
+Stage2Sum18(cn, c) == Stage1Sum18(cn, c) ++ Frac18(cn.holders, c)
+\* the decided choice given the three sums: the strict maximum; invalid when there is none (ties, or nothing cast)
 Winner(s, a, i) == IF a \prec s /\ i \prec s THEN 1 ELSE IF s \prec a /\ i \prec a THEN 2 ELSE 3
-\* result code: with quorum 1/2/3 ; without 4/5/6 ; 0 = still voting
-\* (sums of the quorum stage are divided by the number of groups before comparison, which does not change the order
-\*  except through truncation: the division is kept so that exact ties by truncation are decided identically)
-TallyResult(cn, tot, voteEnded) ==
-  IF Quorum \preceq Stage1Part(cn, tot)
-  THEN Winner(Stage1Sum(cn, 1) // N(4), Stage1Sum(cn, 2) // N(4), Stage1Sum(cn, 3) // N(4))
-  ELSE IF Quorum \preceq Stage2Part(cn, tot)
-  THEN Winner(Stage2Sum(cn, 1), Stage2Sum(cn, 2), Stage2Sum(cn, 3))
-  ELSE IF voteEnded
-  THEN 3 + Winner(Stage2Sum(cn, 1), Stage2Sum(cn, 2), Stage2Sum(cn, 3))
-  ELSE 0
+\* The same sums as EXACT rationals over the common denominator D = product of the participating groups' cast totals:
+\* Exact(c) = sum over groups of cast_c * D / cast   (+ D for the team's choice)
+GroupsOf(cn, stage2) == { g \in (IF stage2 THEN {"users", "reporters", "holders"} ELSE {"users", "reporters"}) : ~IsZero(Sum3(cn[g])) }
+RECURSIVE ProdOf(_, _)
+ProdOf(cn, G) == IF G = {} THEN One ELSE LET g == CHOOSE x \in G : TRUE IN Sum3(cn[g]) ** ProdOf(cn, G \ {g})
+Exact(cn, stage2, c) ==
+  LET G == GroupsOf(cn, stage2)
+      D == ProdOf(cn, G)
+  IN NSum([g \in G |-> (cn[g][c] ** D) // Sum3(cn[g])], G) ++ (IF TeamVoted(cn) /\ ~IsZero(cn.team[c]) THEN D ELSE Zero)
+\* fixed-point arithmetic truncates the (quartered) sums to 10^-6 of a group before comparing: two sums closer than that
+\* may legitimately be seen as equal
+NearTie(cn, stage2) ==
+  LET D == ProdOf(cn, GroupsOf(cn, stage2))
+      close(x, y) == (AbsDiff(x, y) ** (E6 // N(4))) \prec D
+      s == Exact(cn, stage2, 1) a == Exact(cn, stage2, 2) i == Exact(cn, stage2, 3)
+      top == NMax(s, NMax(a, i))
+  IN Cardinality({ c \in 1 .. 3 : close(Exact(cn, stage2, c), top) }) > 1
+\* admissible decided choices: the exact winner, the fixed-point winner, and invalid when the best sums are within truncation
+Choices(cn, stage2, quartered) ==
+  {Winner(Exact(cn, stage2, 1), Exact(cn, stage2, 2), Exact(cn, stage2, 3))}
+  \cup (IF NearTie(cn, stage2) THEN {3} ELSE {})
+  \cup { IF stage2 THEN Winner(Stage2Sum18(cn, 1) // E18, Stage2Sum18(cn, 2) // E18, Stage2Sum18(cn, 3) // E18)
+         ELSE Winner((Stage1Sum18(cn, 1) // N(4)) // E18, (Stage1Sum18(cn, 2) // N(4)) // E18, (Stage1Sum18(cn, 3) // N(4)) // E18) }
+\* admissible results: 1/2/3 with quorum, 4/5/6 (= 3 + choice) by majority of votes cast after the voting period, 0 = still voting
+TallyResults(cn, tot, voteEnded) ==
+  IF Quorum \preceq Stage1Part(cn, tot) THEN Choices(cn, FALSE, TRUE)
+  ELSE IF Quorum \preceq Stage2Part(cn, tot) THEN Choices(cn, TRUE, FALSE)
+  ELSE IF voteEnded THEN { 3 + c : c \in Choices(cn, TRUE, FALSE) }
+  ELSE {0}
+TallyResult(cn, tot, voteEnded) == CHOOSE r \in TallyResults(cn, tot, voteEnded) : TRUE
+\* no voters at all after the voting period: decided as invalid without quorum
+NoVotes(cn) == IsZero(Sum3(cn.users)) /\ IsZero(Sum3(cn.reporters)) /\ IsZero(Sum3(cn.holders)) /\ ~TeamVoted(cn)
 =============================================================================
